@@ -58,6 +58,50 @@ func (w *vfRateWriter) ReadPacketData() ([]byte, *gopacket.CaptureInfo, error) {
 	return nil, nil, nil
 }
 
+// vfStallMon: a goroutine that sleeps 200 us at a time and remembers when it overslept - the harness's own measure of how far the
+// process (or the whole machine) was from running in real time while a timed run was going on
+type vfStallMon struct {
+	mu     sync.Mutex
+	stalls [][2]time.Time // (moment, moment + oversleep)
+	stop   chan struct{}
+}
+
+func vfStartStallMon() *vfStallMon {
+	m := &vfStallMon{stop: make(chan struct{})}
+	go func() {
+		for {
+			select {
+			case <-m.stop:
+				return
+			default:
+			}
+			t := time.Now()
+			time.Sleep(200 * time.Microsecond)
+			if d := time.Since(t) - 200*time.Microsecond; d > 2*time.Millisecond {
+				m.mu.Lock()
+				m.stalls = append(m.stalls, [2]time.Time{t, t.Add(d)})
+				m.mu.Unlock()
+			}
+		}
+	}()
+	return m
+}
+
+// worst oversleep (us) that overlapped [from, to]
+func (m *vfStallMon) worst(from, to time.Time) int {
+	m.mu.Lock()
+	defer m.mu.Unlock()
+	w := 0
+	for _, s := range m.stalls {
+		if s[1].After(from) && s[0].Before(to) {
+			if d := int(s[1].Sub(s[0]) / time.Microsecond); d > w {
+				w = d
+			}
+		}
+	}
+	return w
+}
+
 func vfRateEvent(rate string, path string, workers int, times []int, expected int) map[string]interface{} {
 	n, w, err := parseRateLimit(rate)
 	if err != nil {
@@ -83,10 +127,28 @@ func TestVfRate(t *testing.T) {
 	}
 	var mu sync.Mutex
 	var wg sync.WaitGroup
+	mon := vfStartStallMon()
+	defer close(mon.stop)
+	// a run during which the process was held up for more than 10 ms is repeated (at most twice): its times measure the machine, not sx
+	attempt := func(run func() map[string]interface{}) {
+		defer wg.Done()
+		var ev map[string]interface{}
+		for k := 0; k < 3; k++ {
+			from := time.Now()
+			ev = run()
+			ev["stallUs"], ev["attempts"] = mon.worst(from, time.Now()), k+1
+			if ev["stallUs"].(int) <= 10000 {
+				break
+			}
+		}
+		mu.Lock()
+		out.write([]map[string]interface{}{ev})
+		mu.Unlock()
+	}
 	for _, j := range jobs {
+		j := j
 		wg.Add(1)
-		go func(j job) {
-			defer wg.Done()
+		go attempt(func() map[string]interface{} {
 			// application path, wired by the command's own constructor
 			o := &genericScanCmdOpts{workers: j.workers, portRanges: []*scan.PortRange{{StartPort: 1080, EndPort: 1080}}}
 			var err error
@@ -112,16 +174,13 @@ func TestVfRate(t *testing.T) {
 			sc.mu.Lock()
 			ev := vfRateEvent(j.rate, "app", j.workers, append([]int{}, sc.times...), 128)
 			sc.mu.Unlock()
-			mu.Lock()
-			out.write([]map[string]interface{}{ev})
-			mu.Unlock()
-		}(j)
+			return ev
+		})
 		if j.stall {
 			continue
 		}
 		wg.Add(1)
-		go func(j job) {
-			defer wg.Done()
+		go attempt(func() map[string]interface{} {
 			// packet path: the limiter wrapper around the writer, behind the real sender
 			n, w, _ := parseRateLimit(j.rate)
 			rw := &vfRateWriter{t0: time.Now()}
@@ -144,10 +203,8 @@ func TestVfRate(t *testing.T) {
 			case <-time.After(60 * time.Second):
 			}
 			cancel()
-			mu.Lock()
-			out.write([]map[string]interface{}{vfRateEvent(j.rate, "packet", 1, rw.times, 128)})
-			mu.Unlock()
-		}(j)
+			return vfRateEvent(j.rate, "packet", 1, rw.times, 128)
+		})
 	}
 	wg.Wait()
 	fmt.Printf("VF_RUNS=%d\n", out.n)
